@@ -165,7 +165,7 @@ def generate(rng):
                         "what": rng.choice(["len", "iter", "contains", "keys", "items", "get_default", "values", "block_property"]),
                         "key": rng.choice(BLOCKS + CATS + COLS)})
         elif r < 0.90:
-            ops.append({"op": "restart", "how": rng.choice(["memory", "memory", "stream", "path", "tempfile", "wrapper", "subtree_block", "subtree_cat", "str"]),
+            ops.append({"op": "restart", "how": rng.choice(["memory", "memory", "stream", "path", "pathobj", "tempfile", "wrapper", "subtree_block", "subtree_cat", "str"]),
                         "b": some_block(), "c": rng.choice(CATS)})
         elif r < 0.94:
             ops.append({"op": "check_all"})
@@ -880,6 +880,12 @@ class Sim:
                 return S.File.read(buf)
             if how == "path":
                 p = os.path.join(self.scratch, "f.cif" if text_mode else "f.bcif")
+                f.write(p)
+                return S.File.read(p)
+            if how == "pathobj":
+                import pathlib
+
+                p = pathlib.Path(self.scratch) / ("g.cif" if text_mode else "g.bcif")
                 f.write(p)
                 return S.File.read(p)
             if how == "tempfile":
